@@ -175,7 +175,27 @@ func vrfRangeQueries(r *RegionsInfo, spec []*RegionInfo) {
 			v.Assert("scan-order", scan[i] == cand[i])
 		}
 	}
+	// --- random pick inside [probe.start, probe.end) (rank queries of the btree; the random index is symbolic):
+	// whatever is returned is a region of the set lying inside the range
+	if v.Param("random", 1) == 1 && (len(probe.GetEndKey()) == 0 || vLess(probe.GetStartKey(), probe.GetEndKey())) {
+		pick := r.tree.RandomRegion([]KeyRange{NewKeyRange(string(probe.GetStartKey()), string(probe.GetEndKey()))})
+		if pick != nil {
+			v.Reach("picked")
+			in := false
+			for _, o := range spec {
+				in = in || o == pick
+			}
+			v.Assert("random-region-is-in-the-set", in)
+			v.Assert("random-region-starts-inside-the-range", v.Not(vLessB(pick.GetStartKey(), probe.GetStartKey())))
+			if len(probe.GetEndKey()) != 0 {
+				v.Assert("random-region-ends-inside-the-range", v.And(len(pick.GetEndKey()) != 0, v.Not(vLessB(probe.GetEndKey(), pick.GetEndKey()))))
+			}
+		}
+	}
 }
+
+// vLessB: symbolic (non-forking) a < b
+func vLessB(a, b []byte) bool { return v.BytesLess(a, b) }
 
 func vrfStats(r *RegionsInfo, spec []*RegionInfo) {
 	for st := uint64(1); st <= 2; st++ {
